@@ -44,4 +44,13 @@ PROPS = {
         "level_text": "Bounded symbolic verification: shapes and bandwidths enumerated exhaustively inside the bound, all in-band and padding values universally quantified; agreement with the dense reference is an SMT obligation on every pivot path.",
         "level_note": "Exact-real semantics; pivot search makes full-bandwidth n = 4 as hard as dense n = 4, so solve/det are bounded as stated. Trusted: rustc monomorphisation, symcore, z3.",
     },
+    "C05": {
+        "explanation": "Tridiagonal::<Sym> (generic code of the current tree) for every n in the bound with the three diagonals fully symbolic: index/index_mut, clone, convert, transpose (both forms), negation, + -, scalar * / += -= *= /=, f64*T, new, with_elements, resize, det and the matrix-vector product (owned and borrowed) are compared with the dense twin. solve(): on every path of the Thomas algorithm it either returns T*x = r (SMT obligation per row) or panics with the zero-pivot message, and then z3 must show that some leading principal minor of the dense twin vanishes (elimination really meets a zero pivot); a division by zero is never feasible. Under strict diagonal dominance no refusal path is feasible.",
+        "functions": ["Tridiagonal::{with_vecs,new,with_elements,resize,transpose,transpose_in_place,det,convert,solve,clone,size,subdiagonal,maindiagonal,superdiagonal}", "Index/IndexMut<(usize,usize)> for Tridiagonal", "Neg/Add/Sub/Mul/Div/*Assign impls", "Tridiagonal * Vector (owned, borrowed)", "f64 * Tridiagonal<f64>"],
+        "bounds": {"quick": "n = 1..5, all real diagonal contents, all zero-pivot paths", "thorough": "n = 1..8"},
+        "outside": "n > 8; f64 backward stability beyond 'no refusal and exact over the reals'; Complex<f64> elements (conj)",
+        "assumptions": COMMON_ASSUME + ["solve_dd: |main_i| > |sub_{i-1}| + |sup_i| for every row"],
+        "level_text": "Bounded symbolic verification: sizes enumerated, diagonal contents universally quantified; exact-or-refuses is decided on every path of the elimination.",
+        "level_note": "Exact-real semantics. Trusted: rustc monomorphisation, symcore, retype.py (f64*T only), z3.",
+    },
 }
